@@ -82,6 +82,8 @@ def cases(tier, seed):
             sig = [t for t in sig if t[0] <= 2]
         torus = [bool(v) for v in rng.integers(0, 2, size=D)]
         out.append({"kind": "multi", "D": D, "shape": list(shape), "lead": list(lead), "sig": [list(t) for t in sig], "torus": torus})
+    if tier == "thorough":
+        out.insert(0, {"kind": "suite"})
     return out
 
 
@@ -119,6 +121,10 @@ def pairs_for(tier, D, G, rng):
 
 
 def run(case, ctx):
+    if case["kind"] == "suite":
+        from .. import suite
+
+        return suite.run_suite("action")
     if case["kind"] == "single":
         return run_single(case, ctx)
     return run_multi(case, ctx)
